@@ -1612,6 +1612,12 @@ impl<'a> VerifiedRrset<'a> {
                     rrset.signatures.len()
                 );
             }
+        } else if !proof.is_secure() {
+            // no RRSIG was accepted, they share the fate of the RRset. This keeps the result
+            // visible when an RRSIG shows up without any of the records it covers.
+            for rrsig in rrset.signatures.iter_mut() {
+                rrsig.proof = proof;
+            }
         }
 
         // Change from mutable references to immutable references. (This should be cheap due to
